@@ -706,6 +706,25 @@ def _array_valued(t, depth=0):
     return False
 
 
+ATTR_RANK = {'data': 2, 'ts': 1, 'fs': 1, 'v': 1}      # number of axes of the arrays these attributes hold in setigen
+
+
+def _elem_rank(t):
+    """rank of the items of a list of arrays, when every item is an attribute of known rank (or a comprehension of one)"""
+    a = t.single_atom()
+    if a is None:
+        return None
+    if a.kind == 'comp':
+        # (scalars broadcast: the rank of a sum / product is the largest rank among its array-valued attributes)
+        rs = [ATTR_RANK[x.args[1]] for x in a.args[1].atoms() if x.kind == 'attr' and x.args[1] in ATTR_RANK]
+        return max(rs) if rs else None
+    if a.kind in ('list', 'tuple') and a.args:
+        rs = {ATTR_RANK.get(x.single_atom().args[1]) if x.single_atom() is not None and x.single_atom().kind == 'attr' else None
+              for x in a.args}
+        return rs.pop() if len(rs) == 1 else None
+    return None
+
+
 def _strip_array(t):
     a = t.single_atom()
     while a is not None and a.kind == 'call' and a.args[0] == 'array' and len(a.args[1]) == 1 and not a.args[2]:
@@ -775,6 +794,31 @@ def mk_call(fn, args=(), kwargs=()):
         fn = 'floor'
     if fn in EVEN and len(args) == 1 and leading_sign(args[0]) < 0:
         args = [-args[0]]
+    if fn in ('minimum', 'maximum') and len(args) == 2 and not kwargs:
+        fn = fn[:3]             # element-wise minimum/maximum of two values: the same function as two-argument min/max
+    if fn == 'clip' and len(args) == 1 and set(dict(kwargs)) == {'a_min', 'a_max'}:
+        kd = dict(kwargs)
+        if not _isnone(kd['a_min']) and not _isnone(kd['a_max']):
+            return mk_call('min', [mk_call('max', [args[0], kd['a_min']]), kd['a_max']])     # clip(x, lo, hi)
+    if fn == 'astype' and kwargs:
+        # the platform integer / float: astype(int) == astype(np.int64), astype(float) == astype(np.float64)
+        kd = dict(kwargs)
+        da = kd.get('dtype').single_atom() if kd.get('dtype') is not None else None
+        if da is not None and da.kind == 'ext' and da.args[0] in ('numpy.int64', 'numpy.int_', 'numpy.float64', 'numpy.float_',
+                                                                 'numpy.double'):
+            kd['dtype'] = Term.of(Atom('builtin', 'int' if 'int' in da.args[0] else 'float'))
+            kwargs = tuple(sorted(kd.items(), key=lambda kv: kv[0]))
+    if fn in ('vstack', 'hstack') and len(args) == 1 and not kwargs:
+        # stacking 2-d blocks vertically / 1-d arrays end to end is concatenation along the first axis (rank by attribute)
+        r = _elem_rank(args[0])
+        if (fn, r) in (('vstack', 2), ('hstack', 1)):
+            return mk_call('concatenate', [args[0]])
+    if fn in ('sum', 'min', 'max', 'any', 'all', 'sorted', 'list', 'tuple', 'array', 'concatenate', 'vstack', 'hstack', 'set',
+              'dict', 'mean', 'std') and args:
+        # a generator expression that is consumed on the spot is the list of its items
+        ga = args[0].single_atom()
+        if ga is not None and ga.kind == 'comp' and ga.args[0] == 'gen':
+            args = [Term.of(Atom('comp', 'list', *ga.args[1:]))] + list(args[1:])
     if fn in ('min', 'max') and len(args) == 1 and not kwargs:
         la = args[0].single_atom()
         if la is not None and la.kind in ('list', 'tuple') and la.args:
@@ -1298,6 +1342,18 @@ def canon_comps(t):
     return subst(t, fn)
 
 
+def _cmp_canon(t):
+    """rewritings that hold over the reals and are applied for COMPARISON only (the stored terms keep the spelling, which the
+    kind rules read):  a // b  ==  floor(a / b)"""
+    def fn(a):
+        if a.kind == 'call' and a.args[0] == 'floordiv' and len(a.args[1]) == 2 and not a.args[2]:
+            return mk_call('floor', [a.args[1][0] / a.args[1][1]])
+        return None
+    if not any(x.kind == 'call' and x.args[0] == 'floordiv' for x in all_atoms(t).values()):
+        return t
+    return subst(t, fn)
+
+
 def rename_loops(t, kinds='LCT'):
     """Loop / try identifiers are line based (L46, C12:4:0, T128); rename them by rank so that a
     reference transcription with different line numbers compares equal."""
@@ -1493,6 +1549,7 @@ def compare(a, b, max_conds=8):
     if a.key == b.key:
         return EQUAL, None
     a, b = canon_comps(a), canon_comps(b)                                  # comprehension variables are bound names
+    a, b = _cmp_canon(a), _cmp_canon(b)
     if a.key == b.key:
         return EQUAL, None
     a, b = rename_loops(canon(a), 'LT'), rename_loops(canon(b), 'LT')     # loops / try blocks: stable statement order
